@@ -26,6 +26,18 @@ pub fn run_source(src: &str, drive: Drive, rec: bool, insn_limit: usize) -> RunO
     run_on(xs, src, drive)
 }
 
+/// The same, starting from an interpreter that is idle after an earlier source (evaluated or compiled and run):
+/// `prior` = (source, driven by eval?).  A prelude that fails is fine: the interpreter is idle again afterwards.
+pub fn run_source_after(prior: &(String, bool), src: &str, drive: Drive, rec: bool, insn_limit: usize) -> RunObs {
+    let mut xs = fresh();
+    xs.set_recording_enabled(rec);
+    xs.set_insn_limit(Some(insn_limit)).unwrap();
+    let _ = guarded(|| if prior.1 { xs.eval(&prior.0) } else { xs.compile(&prior.0).and_then(|_| xs.run()) });
+    let _ = xs.read_stdout();
+    xs.set_insn_limit(Some(insn_limit)).unwrap(); // resets the meter
+    run_on(xs, src, drive)
+}
+
 pub fn run_on(mut xs: Xstate, src: &str, drive: Drive) -> RunObs {
     let mut steps = 0usize;
     let outcome = guarded(|| match drive {
